@@ -124,8 +124,14 @@ def _missing(x):
         return False
 
 
-def _same(a, b):
+def _same(a, b, column=False):
+    """observed a against expected b; column=True: a is an element of a result COLUMN, where "the column's missing value" of a
+    date / duration column is NaT of that type (not NaN, not None) - the vector form returns Python values (NaT as None)"""
     if _missing(a) and _missing(b):
+        if column:
+            for cls in (np.datetime64, np.timedelta64):
+                if isinstance(b, cls) and not isinstance(a, cls):
+                    return False
         return True
     if isinstance(a, float) or isinstance(b, float):
         try:
@@ -140,7 +146,7 @@ def textbook(name, xs, kind, **kw):
     drop = kw.get("drop_na")
     kept = [x for x in xs if not _missing(x)] if drop else list(xs)
     has_na = any(_missing(x) for x in kept)
-    nanv = {"float": float("nan"), "int": float("nan"), "bool": None, "str": "", "date": np.datetime64("NaT")}[kind]
+    nanv = {"float": float("nan"), "int": float("nan"), "bool": None, "str": "", "date": np.datetime64("NaT"), "td": np.timedelta64("NaT")}[kind]
     if name == "count":
         return len(kept)
     if name == "count_unique":
@@ -199,16 +205,17 @@ def textbook(name, xs, kind, **kw):
 
 
 H_POOLS = {"int": [1, 2, 3], "float": [0.5, 1.5, float("nan")], "bool": [True, False], "str": ["a", "b", ""],
-           "date": [np.datetime64("2020-01-02"), np.datetime64("2021-01-01"), np.datetime64("NaT", "D")]}
-H_DT = {"int": int, "float": float, "bool": bool, "str": str, "date": "datetime64[D]"}
+           "date": [np.datetime64("2020-01-02"), np.datetime64("2021-01-01"), np.datetime64("NaT", "D")],
+           "td": [np.timedelta64(1, "D"), np.timedelta64(3, "D"), np.timedelta64("NaT", "D")]}
+H_DT = {"int": int, "float": float, "bool": bool, "str": str, "date": "datetime64[D]", "td": "timedelta64[D]"}
 H_CALLS = {
     "all": (("int", "float", "bool"), [{}]), "any": (("int", "float", "bool"), [{}]),
     "count": (tuple(H_POOLS), [{"drop_na": True}, {"drop_na": False}]),
     "count_unique": (tuple(H_POOLS), [{"drop_na": True}, {"drop_na": False}]),
     "first": (tuple(H_POOLS), [{"drop_na": True}, {"drop_na": False}]), "last": (tuple(H_POOLS), [{"drop_na": True}, {"drop_na": False}]),
     "nth": (tuple(H_POOLS), [{"index": i, "drop_na": d} for i in (-3, -1, 0, 1, 2) for d in (True, False)]),
-    "min": (("int", "float", "str", "date"), [{"drop_na": True}, {"drop_na": False}]), "max": (("int", "float", "str", "date"), [{"drop_na": True}, {"drop_na": False}]),
-    "mode": (("int", "float", "str", "bool"), [{"drop_na": True}, {"drop_na": False}]),
+    "min": (("int", "float", "str", "date", "td"), [{"drop_na": True}, {"drop_na": False}]), "max": (("int", "float", "str", "date", "td"), [{"drop_na": True}, {"drop_na": False}]),
+    "mode": (("int", "float", "str", "bool", "td"), [{"drop_na": True}, {"drop_na": False}]),
     "mean": (("int", "float", "bool"), [{"drop_na": True}, {"drop_na": False}]), "median": (("int", "float"), [{"drop_na": True}, {"drop_na": False}]),
     "quantile": (("int", "float", "bool"), [{"q": q, "drop_na": d} for q in (0, 0.25, 1) for d in (True, False)]),
     "std": (("int", "float"), [{"ddof": k, "drop_na": d} for k in (0, 1) for d in (True, False)]),
@@ -320,7 +327,7 @@ def group_driver(name):
                 args = [kw2.pop("index")] if name == "nth" else [kw2.pop("q")] if name == "quantile" else []
                 try:
                     got = list(d.group_by("g").aggregate(y=getattr(di, name)("x", *args, **kw2)).y)
-                    ok = len(got) == len(exp) and all(_same(a, b) for a, b in zip(got, exp))
+                    ok = len(got) == len(exp) and all(_same(a, b, column=True) for a, b in zip(got, exp))
                 except Exception as e:
                     got, ok = f"raised {type(e).__name__}: {e}", False
                 run.check([k, gs, idx, kw], ok, expected=exp, got=got, clause=f"{name} (group-wise) = textbook statistic per group")
@@ -386,6 +393,7 @@ def _mk_group_frame(kinds, cols):
     d["v"] = Vector([float(i % 3) for i in range(n)], float)
     d["w"] = Vector([float("nan") if i % 2 == 0 else float(i) for i in range(n)], float)      # a column with missing values
     d["s"] = Vector(["" if i % 3 == 0 else "s%d" % i for i in range(n)], str)
+    d["t"] = Vector(np.array(["NaT" if i % 2 == 1 else i + 1 for i in range(n)], "timedelta64[D]"))      # durations with missing values
     return DataFrame(**d)
 
 
@@ -439,11 +447,13 @@ def _agg_body(df, by, exp):
                                             m2=lambda x: di.mean(x.v), c=di.count(), f=di.first("i"),
                                             cw=di.count("w", drop_na=True), cw2=lambda x: di.count(x.w, drop_na=True),
                                             cs=di.count("s", drop_na=True), cs2=lambda x: di.count(x.s, drop_na=True),
-                                            sw=di.sum("w"), sw2=lambda x: di.sum(x.w), fw=di.first("w", drop_na=True), fw2=lambda x: di.first(x.w, drop_na=True))
+                                            sw=di.sum("w"), sw2=lambda x: di.sum(x.w), fw=di.first("w", drop_na=True), fw2=lambda x: di.first(x.w, drop_na=True),
+                                            ct=di.count("t", drop_na=True), ct2=lambda x: di.count(x.t, drop_na=True),
+                                            ut=di.count_unique("t", drop_na=True), ut2=lambda x: di.count_unique(x.t, drop_na=True))
     obs = {c: list(got[c]) for c in got.colnames}
     ok = got.nrow == len(exp) and got.colnames[:len(by) + 6] == by + ["n", "ids", "m", "m2", "c", "f"]
     same_ = lambda a, b: (_is_missing(a) and _is_missing(b)) or a == b       # missing is missing (NaN in a float column, None in an object column)
-    for h in ("cw", "cs", "sw", "fw"):
+    for h in ("cw", "cs", "sw", "fw", "ct", "ut"):
         ok = ok and all(same_(a, b) for a, b in zip(got[h], got[h + "2"]))
     for t, (k, members) in enumerate(exp):
         if not ok:
@@ -480,12 +490,14 @@ def _count_body(df, by, exp):
 
 
 def _modify_body(df, by, exp):
-    got = df.copy().group_by(*by).modify(size=lambda x: np.repeat(x.nrow, x.nrow), rank=lambda x: x.i - (x.i.min() if x.nrow else 0), first=lambda x: x.i[0] if x.nrow else x.i)
+    got = df.copy().group_by(*by).modify(size=lambda x: np.repeat(x.nrow, x.nrow), rank=lambda x: x.i - (x.i.min() if x.nrow else 0), first=lambda x: x.i[0] if x.nrow else x.i,
+                                         half=lambda x: x.i * 0.5 if x.nrow != 1 else 0)       # int for one-row groups, float for the others: the column is float
     obs = {c: list(got[c]) for c in ("i", "size", "rank", "first")} if got.nrow == df.nrow else "wrong number of rows"
     ok = got.nrow == df.nrow and list(got.i) == list(range(df.nrow))
     for k, members in exp:
         for r in members:
             ok = ok and got["size"][r] == len(members) and got["first"][r] == members[0] and got["rank"][r] == r - members[0]
+            ok = ok and float(got["half"][r]) == (r * 0.5 if len(members) > 1 else 0.0)
     return ok, obs
 
 
